@@ -63,6 +63,27 @@ func (r *Row) Freeze() {
 	}
 }
 
+// readOnlyCopy returns a row that shares r's segment data but may not write
+// to it: the first write to a segment clones it (see ensureWritable).
+func (r *Row) readOnlyCopy() *Row {
+	other := &Row{Keys: r.Keys, Attrs: r.Attrs}
+	if len(r.segments) > 0 {
+		other.segments = make([]rowSegment, len(r.segments))
+		for i := range r.segments {
+			other.segments[i] = r.segments[i].shared()
+		}
+	}
+	return other
+}
+
+// shared returns a copy of the segment for use in another row. The data is
+// shared, so the copy is read-only until it is cloned by its first write.
+func (s *rowSegment) shared() rowSegment {
+	other := *s
+	other.writable = false
+	return other
+}
+
 // Merge merges data from other into r.
 func (r *Row) Merge(other *Row) {
 	var segments []rowSegment
@@ -71,7 +92,7 @@ func (r *Row) Merge(other *Row) {
 	for s0, s1 := itr.next(); s0 != nil || s1 != nil; s0, s1 = itr.next() {
 		// Use the other row's data if segment is missing.
 		if s0 == nil {
-			segments = append(segments, *s1)
+			segments = append(segments, s1.shared())
 			continue
 		} else if s1 == nil {
 			segments = append(segments, *s0)
@@ -136,10 +157,10 @@ func (r *Row) Xor(other *Row) *Row {
 	itr := newMergeSegmentIterator(r.segments, other.segments)
 	for s0, s1 := itr.next(); s0 != nil || s1 != nil; s0, s1 = itr.next() {
 		if s1 == nil {
-			segments = append(segments, *s0)
+			segments = append(segments, s0.shared())
 			continue
 		} else if s0 == nil {
-			segments = append(segments, *s1)
+			segments = append(segments, s1.shared())
 			continue
 		}
 
@@ -186,7 +207,7 @@ func (r *Row) Union(others ...*Row) *Row {
 		// Swap the segment lists (so we don't have to reallocate it)
 		segments, nextSegs = nextSegs, segments
 		if len(toProcess) == 1 {
-			output = append(output, *toProcess[0])
+			output = append(output, toProcess[0].shared())
 		} else {
 			output = append(output, *toProcess[0].Union(toProcess[1:]...))
 		}
@@ -203,7 +224,7 @@ func (r *Row) Difference(other *Row) *Row {
 		if s0 == nil {
 			continue
 		} else if s1 == nil {
-			segments = append(segments, *s0)
+			segments = append(segments, s0.shared())
 			continue
 		}
 		segments = append(segments, *s0.Difference(s1))
